@@ -209,10 +209,12 @@ KernelConfigs(n) ==
   {kf \in [kinds : [1..n -> TxKinds], fees : [1..n -> Fees]] :
      /\ \A i \in 1..(n - 1) : KindIx(kf.kinds[i]) <= KindIx(kf.kinds[i + 1])
      /\ \A i \in 1..(n - 1) : kf.kinds[i] = kf.kinds[i + 1] => kf.fees[i] <= kf.fees[i + 1]}
-ValueChoices(g) ==
+AllValueChoices(g) ==
   {[vin |-> t[1], vout |-> t[2], kinds |-> t[3].kinds, fees |-> t[3].fees] :
      t \in {u \in NonDecSeqs(g.ni) \X NonDecSeqs(g.no) \X KernelConfigs(g.nk) :
               SeqSum(u[1]) = SeqSum(u[2]) + SeqSum(u[3].fees)}}
+
+ValueChoices(g) == AllValueChoices(g)     \* MC modules may substitute a sample
 
 MkKernel(kind, fee, x, sid) ==
   [kind |-> kind, fee |-> fee, lock |-> IF kind = "hl" THEN Height ELSE 0,
@@ -221,7 +223,7 @@ MkKernel(kind, fee, x, sid) ==
 Blinds == 1..NBlind
 Cyc(i, a) == 1 + ((i - 1 + a) % NBlind)
 
-Bases(g, w) ==
+AllBases(g, w) ==
   LET Rin(p)  == [i \in 1..g.ni |-> Cyc(i, p.pat[1])]
       Rout(p) == [i \in 1..g.no |-> Cyc(i, p.pat[2])]
       Ins(p)  == [i \in 1..g.ni |-> [v |-> w.vin[i], r |-> Rin(p)[i]]]
@@ -253,6 +255,8 @@ Bases(g, w) ==
   IN  IF g.as = "tx"
       THEN {Build(p, 0) : p \in TxParts}
       ELSE {Build(p, prev) : p \in TxParts, prev \in PrevOffsets}
+
+Bases(g, w) == AllBases(g, w)             \* MC modules may substitute a sample
 
 -----------------------------------------------------------------------------
 \* Single-field corruptions.  Each yields [cls, body, ctx].
@@ -393,4 +397,17 @@ TablesAgree == HasBody => (Valid(body, ctx) <=> FirstFailing(body, ctx) = "none"
 RefusedConservingIsStructural ==
   (HasBody /\ NoValueCreated(body, ctx) /\ ~Valid(body, ctx)) =>
      FirstFailing(body, ctx) \notin {"kernel_sums", "verify_coinbase", "range_proofs", "signatures"}
+
+\* All of the above in one invariant (one evaluation of Valid per state: what the exhaustive
+\* configurations check; the named invariants are used to diagnose a failure).
+AllChecks ==
+  HasBody =>
+    LET v   == Valid(body, ctx)
+        nvc == NoValueCreated(body, ctx)
+        ff  == FirstFailing(body, ctx)
+    IN  /\ v => nvc
+        /\ v <=> (ff = "none")
+        /\ applied = <<>> => v
+        /\ (Len(applied) = 1 /\ applied[1] \in AlwaysRefused) => ~v
+        /\ (nvc /\ ~v) => ff \notin {"kernel_sums", "verify_coinbase", "range_proofs", "signatures"}
 =============================================================================
